@@ -10,6 +10,7 @@ import KafkaVerif.Base.Proto
 import KafkaVerif.Model.ListOffsets
 import KafkaVerif.Model.Seek
 import KafkaVerif.Spec.Offsets
+import KafkaVerif.Model.Mappings
 
 namespace KV.OracleC19
 open KV KV.ListOffsets KV.Seek
@@ -225,7 +226,11 @@ def readOffsetRef (kind : String) (ts : Int) (cp : ClusterPart) : String :=
   | "first" => one (-2)
   | "last" => one (-1)
   | "time" => one ts
-  | _ => if cp.listErr != 0 then s!"{cp.listErr} 0 0" else s!"0 {cp.first} {cp.last}"
+  | _ =>
+    let one (q : Int) : Except Int Int := let (e, _, o) := listOffsetAnswer cp q; if e != 0 then .error e else .ok o
+    match KV.Seek.readOffsets (one (-2)) (one (-1)) with
+    | .error e => s!"{e} 0 0"
+    | .ok (f, l) => s!"0 {f} {l}"
 
 /-! ### group offsets / metadata mappings (reference values) -/
 
@@ -255,10 +260,16 @@ def showCState (st : List ((String × Int) × CState)) : String :=
     | .val o m => s!"{t}/{p}={o}~{m}")))
 
 def ofetchRef (st : List ((String × Int) × CState)) (req : String) : Option String := do
-  let ts ← (splitD req "|").mapM fun t =>
+  -- "nil" / "empty" user map = all topics of the group (a NULL topics array on the wire): every partition the
+  -- group has committed, by topic and ascending partition
+  let allTs : List (String × List Int) :=
+    let names := sortBy (fun a b => a < b) ((st.map (·.1.1)).eraseDups)
+    names.map fun n => (n, sortBy (fun a b => a < b) ((st.filter (·.1.1 == n)).map (·.1.2)))
+  let parsed : Option (List (String × List Int)) := (splitD req "|").mapM fun (t : String) =>
     match t.splitOn ":" with
     | [n, ps] => do let ps ← (splitD ps ".").mapM (·.toInt?); pure (n, ps)
     | _ => none
+  let ts ← if req == "nil" || req == "empty" then some allTs else parsed
   let ts := sortBy (fun a b => a.1 < b.1) ts
   let body := ts.map fun (n, ps) =>
     s!"{n}:" ++ ",".intercalate (ps.map fun p =>
@@ -311,21 +322,71 @@ def metaRef (filter : String) (cluster : String) : Option String :=
       some s!"{c}/{bs}/{dash ("|".intercalate ((splitD filter ",").map pickT))}"
   | _ => none
 
-def rpartsRef (topics : String) (cluster : String) : Option String :=
+/-- parse the C19 cluster description into the metadata answer a broker gives for all topics -/
+def parseCluster (cluster : String) : Option KV.Routing.MResponse :=
+  match cluster.splitOn "/" with
+  | [c, bs, ts] => do
+    let c ← c.toInt?
+    let bs ← (splitD bs ",").mapM fun (b : String) => do let i ← b.toInt?; pure (⟨i, s!"b{i}", 9092, ""⟩ : KV.Routing.MBroker)
+    let ints (x : String) : Option (List Int) := (splitD x ".").mapM (·.toInt?)
+    let ts ← (splitD ts "|").mapM fun (t : String) =>
+      match t.splitOn ":" with
+      | [n, e, inl, ps] => do
+        let e ← e.toInt?
+        let ps ← (splitD ps ",").mapM fun (p : String) =>
+          match p.splitOn "=" with
+          | [i, l, pe, r, isr] => do
+            let i ← i.toInt?; let l ← l.toInt?; let pe ← pe.toInt?; let r ← ints r; let isr ← ints isr
+            pure (⟨pe, i, l, r, isr, []⟩ : KV.Routing.MPartition)
+          | _ => none
+        pure (⟨e, n, inl == "1", ps⟩ : KV.Routing.MTopic)
+      | _ => none
+    pure ⟨0, bs, "", c, ts⟩
+  | _ => none
+
+def showIds (bs : List KV.Mappings.UBroker) : String :=
+  if bs.isEmpty then "-" else ".".intercalate (bs.map fun b => toString b.id)
+
+/-- Conn.ReadPartitions through the model: the topics asked for, the broker's answer (request order; an unknown
+topic is answered with UnknownTopicOrPartition), the mapping -/
+def rpartsModel (connTopic : String) (args : List String) (m : KV.Routing.MResponse) : String :=
+  let asked := KV.Mappings.readPartitionsTopics connTopic args
+  let answer : KV.Routing.MResponse := match asked with
+    | none => { m with topics := m.topics.reverse }   -- the fake lists all topics in descending name order
+    | some ns => { m with topics := ns.map fun n => match m.topics.find? (·.name == n) with
+        | some t => t | none => ⟨3, n, false, []⟩ }
+  match KV.Mappings.readPartitions connTopic answer with
+  | .error e => s!"err {e}"
+  | .ok ps => dash (",".intercalate (strSort (ps.map fun p =>
+      s!"{p.topic}/{p.id}={p.leader.id}={showIds p.replicas}={showIds p.isr}")))
+
+/-- reference: the first asked topic carrying an error that concerns this connection decides; otherwise every
+partition of every asked topic with the cluster's leader / replicas / ISR -/
+def rpartsRef (connTopic : String) (topics : String) (cluster : String) : Option String :=
   match cluster.splitOn "/" with
   | [_, _, ts] =>
     let all := splitD ts "|"
-    let ps := (splitD topics ",").flatMap fun n =>
-      match all.find? (·.startsWith (n ++ ":")) with
-      | some t =>
-        match t.splitOn ":" with
-        | [_, _, _, parts] => (splitD parts ",").filterMap fun p =>
-            match p.splitOn "=" with
-            | [i, l, _, r, isr] => some s!"{n}/{i}={l}={r}={isr}"
-            | _ => none
-        | _ => []
-      | none => []
-    some (dash (",".intercalate (strSort ps)))
+    let asked : List String :=
+      if topics == "all" then (if connTopic == "" then (all.filterMap (fun t => (t.splitOn ":").head?)).reverse else [connTopic])
+      else splitD topics ","
+    let entries := asked.map fun n => (n, all.find? (·.startsWith (n ++ ":")))
+    let errOf (n : String) (e : Option String) : Int := match e with
+      | some t => (match t.splitOn ":" with | [_, er, _, _] => er.toInt?.getD 0 | _ => 0)
+      | none => 3
+    match entries.find? (fun (n, e) => errOf n e != 0 && (connTopic == "" || n == connTopic)) with
+    | some (n, e) => some s!"err {errOf n e}"
+    | none =>
+      let ps := entries.flatMap fun (n, e) =>
+        match e with
+        | some t =>
+          match t.splitOn ":" with
+          | [_, _, _, parts] => (splitD parts ",").filterMap fun p =>
+              match p.splitOn "=" with
+              | [i, l, _, r, isr] => some s!"{n}/{i}={l}={r}={isr}"
+              | _ => none
+          | _ => []
+        | none => []
+      some (dash (",".intercalate (strSort ps)))
   | _ => none
 
 /-! ### dispatcher -/
@@ -375,10 +436,11 @@ def step (line : String) : String :=
       match metaRef f c with
       | some want => answer want (impl == want)
       | none => "bad-op"
-    | ["rparts", ts, c] =>
-      match rpartsRef ts c with
-      | some want => answer want (impl == want)
-      | none => "bad-op"
+    | ["rparts", ct, ts, c] =>
+      let connTopic := if ct == "-" then "" else ct
+      match parseCluster c, rpartsRef connTopic ts c with
+      | some m, some want => answer (rpartsModel connTopic (if ts == "all" then [] else splitD ts ",") m) (impl == want)
+      | _, _ => "bad-op"
     | _ => "bad-op"
   | _ => "bad-op"
 
